@@ -42,7 +42,8 @@ def run_stage(cmd, out, timeout, log):
     try:
         p = subprocess.run(cmd, stdout=subprocess.PIPE, stderr=subprocess.STDOUT, timeout=timeout, cwd=workdir,
                            env=dict(os.environ, PYTHONPATH=ROOT, PYTHONDONTWRITEBYTECODE="1", MPLBACKEND="Agg",
-                                    OMP_NUM_THREADS=os.environ.get("OMP_NUM_THREADS", "2")))
+                                    # one numerical thread: spinning BLAS/OpenMP workers would burn the CPU-time budget of layer B on a busy machine
+                                    OMP_NUM_THREADS="1", OPENBLAS_NUM_THREADS="1", MKL_NUM_THREADS="1"))
         txt = p.stdout.decode(errors="replace")
         rc = p.returncode
     except subprocess.TimeoutExpired as e:
